@@ -139,12 +139,27 @@ func recvKey(addr string) string { return "LODB-coins-Addr:" + string(address.Fo
 type blockFacts struct {
 	repeat, self, failed, group, groupFailed, noStateChange bool
 	stateRecurs                                             bool // the block's state hash is the state hash of an earlier version
+	sharedLocal                                             bool // >= 2 ExecOk vlocal transactions of the block write the same local key / table row
+	vlocalOk                                                int  // number of ExecOk vlocal transactions
 }
 
 func factsOf(d *types.BlockDetail, parentState []byte, earlier map[string]bool) blockFacts {
 	var f blockFacts
 	seen := map[string]int{}
+	writers := map[string]int{}
 	for i, tx := range d.Block.Txs {
+		if string(tx.Execer) == vlocalName && d.Receipts[i].Ty == types.ExecOk {
+			f.vlocalOk++
+			mine := map[string]bool{}
+			for _, o := range vlocalOps(tx.Payload) {
+				mine[o.Op[:1]+":"+o.K] = true // k:<plain key> / t:<row id>
+			}
+			for k := range mine {
+				if writers[k]++; writers[k] >= 2 {
+					f.sharedLocal = true
+				}
+			}
+		}
 		from, to := tx.From(), tx.GetRealToAddr()
 		if from == to {
 			f.self = true
@@ -175,7 +190,7 @@ func factsOf(d *types.BlockDetail, parentState []byte, earlier map[string]bool) 
 	return f
 }
 
-func (f blockFacts) nonTrivial() bool { return f.repeat || f.self || f.failed }
+func (f blockFacts) nonTrivial() bool { return f.repeat || f.self || f.failed || f.sharedLocal }
 
 type connected struct {
 	detail *types.BlockDetail
@@ -220,7 +235,8 @@ func runCase(c chainCase, tol tolerance) (fail string, nonTrivial bool) {
 		f := factsOf(detail, parent.StateHash, earlier)
 		earlier[string(detail.Block.StateHash)] = true
 		for name, on := range map[string]bool{"block:repeated_address": f.repeat, "block:self_transfer": f.self, "block:failed_tx": f.failed,
-			"block:group": f.group, "block:failed_group": f.groupFailed, "block:no_state_change": f.noStateChange, "block:state_hash_recurs": f.stateRecurs, "block:nontrivial": f.nonTrivial()} {
+			"block:group": f.group, "block:failed_group": f.groupFailed, "block:no_state_change": f.noStateChange, "block:state_hash_recurs": f.stateRecurs, "block:vlocal_same_key_in_2+_txs": f.sharedLocal,
+			"block:vlocal_2+_txs": f.vlocalOk >= 2, "block:nontrivial": f.nonTrivial()} {
 			if on {
 				lib.Class(name)
 			}
@@ -450,7 +466,7 @@ func genSimple(t *rapid.T, free bool, label string) txSpec {
 		fee = rapid.SampledFrom([]int64{0, 0, 1e5}).Draw(t, label+"fee0")
 	}
 	s := txSpec{Fee: fee, From: rapid.IntRange(0, len(keys)-1).Draw(t, label+"from")}
-	s.Kind = rapid.SampledFrom([]string{"transfer", "transfer", "transfer", "toexec", "withdraw", "none", "none", "modify", "apply"}).Draw(t, label+"kind")
+	s.Kind = rapid.SampledFrom([]string{"transfer", "transfer", "transfer", "toexec", "withdraw", "none", "none", "modify", "apply", "vlocal"}).Draw(t, label+"kind")
 	switch s.Kind {
 	case "transfer":
 		s.Amount = rapid.SampledFrom(amounts).Draw(t, label+"amount")
@@ -465,6 +481,8 @@ func genSimple(t *rapid.T, free bool, label string) txSpec {
 	case "none":
 		s.To = rapid.IntRange(0, nTargets()-1).Draw(t, label+"to")
 		s.Value = rapid.SampledFrom([]string{"", "x", "payload"}).Draw(t, label+"payload")
+	case "vlocal":
+		genVLocal(t, &s, label)
 	case "modify", "apply":
 		if s.Kind == "modify" && rapid.Bool().Draw(t, label+"bymanager") {
 			s.From = 1 // the super manager: succeeds
@@ -474,6 +492,29 @@ func genSimple(t *rapid.T, free bool, label string) txSpec {
 		s.Value = rapid.SampledFrom([]string{"v1", "v2"}).Draw(t, label+"value")
 	}
 	return s
+}
+
+// genVLocal fills a vlocal transaction: 1-4 operations over the small key space; half of the senders are the genesis
+// account so that the transaction is kept on fee-charging chains.
+func genVLocal(t *rapid.T, s *txSpec, label string) {
+	s.Kind = "vlocal"
+	if rapid.Bool().Draw(t, label+"vfromGenesis") {
+		s.From = 0
+	}
+	for i, n := 0, rapid.IntRange(1, 4).Draw(t, label+"vops"); i < n; i++ {
+		o := vop{Op: rapid.SampledFrom([]string{"kset", "kset", "kdel", "tput", "tput", "tdel", "kset", "tput", "kset", "tput", "fail"}).Draw(t, label+"vop")}
+		switch o.Op {
+		case "kset":
+			o.K, o.V = rapid.SampledFrom(vKeys).Draw(t, label+"vk"), rapid.SampledFrom(vValues).Draw(t, label+"vv")
+		case "kdel":
+			o.K = rapid.SampledFrom(vKeys).Draw(t, label+"vk")
+		case "tput":
+			o.K, o.V = rapid.SampledFrom(vRows).Draw(t, label+"vr"), rapid.SampledFrom(vColors).Draw(t, label+"vc")
+		case "tdel":
+			o.K = rapid.SampledFrom(vRows).Draw(t, label+"vr")
+		}
+		s.Ops = append(s.Ops, o)
+	}
 }
 
 func genCase(t *rapid.T) chainCase {
@@ -495,6 +536,7 @@ func genCase(t *rapid.T) chainCase {
 				}
 			}
 		}
+		nfund := len(specs)
 		ntx := rapid.IntRange(1, 7).Draw(t, "ntx")
 		for i := 0; i < ntx; i++ {
 			if rapid.IntRange(0, 6).Draw(t, "isgroup") == 0 {
@@ -505,6 +547,19 @@ func genCase(t *rapid.T) chainCase {
 				specs = append(specs, g)
 			} else {
 				specs = append(specs, genSimple(t, c.Cfg.Free, ""))
+			}
+		}
+		// two blocks in three additionally carry 2-6 vlocal transactions at drawn positions among the others
+		if rapid.IntRange(0, 2).Draw(t, "withVLocal") > 0 {
+			for i, nv := 0, rapid.IntRange(2, 6).Draw(t, "nvlocal"); i < nv; i++ {
+				fee := rapid.SampledFrom([]int64{1e5, 2e5}).Draw(t, "vfee")
+				if c.Cfg.Free {
+					fee = 0
+				}
+				s := txSpec{Fee: fee, From: rapid.IntRange(0, len(keys)-1).Draw(t, "vfrom")}
+				genVLocal(t, &s, "")
+				pos := rapid.IntRange(nfund, len(specs)).Draw(t, "vpos") // never before the funding transactions
+				specs = append(specs[:pos], append([]txSpec{s}, specs[pos:]...)...)
 			}
 		}
 		c.Blocks = append(c.Blocks, specs)
@@ -564,6 +619,33 @@ func TestKnown_MvccUnchangedStateHash(t *testing.T) {
 			{{Kind: "none", From: 0, To: 0, Fee: 0}},
 		}, RollbackTo: 0},
 		"removing a block whose state hash equals an earlier version's (here: a block that changed no state) deletes that version's MVCC hash->version entry")
+}
+
+// TestRegress_SameLocalKeyInOneBlock: a hand-written minimal member of the class "several transactions of one block
+// write the same local key, undone through per-transaction rollback logs": three vlocal transactions set, overwrite and
+// delete plain key "a" and put / re-colour / delete table row "r1". Any order of undoing other than newest-first leaves
+// data behind. Strict oracle (no tolerance): it must hold on a correct tree.
+func TestRegress_SameLocalKeyInOneBlock(t *testing.T) {
+	defer lib.Flush()
+	c := chainCase{Cfg: variant{Quick: true}, Blocks: [][]txSpec{
+		{{Kind: "vlocal", From: 0, Fee: 1e5, Ops: []vop{{Op: "kset", K: "b", V: "z"}, {Op: "tput", K: "r2", V: "blue"}}}},
+		{
+			{Kind: "vlocal", From: 0, Fee: 1e5, Ops: []vop{{Op: "kset", K: "a", V: "x"}, {Op: "tput", K: "r1", V: "red"}, {Op: "kset", K: "b", V: "y"}}},
+			{Kind: "vlocal", From: 0, Fee: 1e5, Ops: []vop{{Op: "kset", K: "a", V: "y"}, {Op: "tput", K: "r1", V: "blue"}, {Op: "tdel", K: "r2"}}},
+			{Kind: "vlocal", From: 0, Fee: 1e5, Ops: []vop{{Op: "kdel", K: "a"}, {Op: "tdel", K: "r1"}, {Op: "kdel", K: "b"}}},
+		},
+	}, RollbackTo: 1}
+	defer func() {
+		if r := recover(); r != nil {
+			if fe, ok := r.(fixtureErr); ok {
+				lib.Inconclusive("C14 fixture: %s", fe.msg)
+			}
+			panic(r)
+		}
+	}()
+	if msg, _ := runCase(c, tolerance{}); msg != "" {
+		lib.Violation(t, prop, "TestRegress_SameLocalKeyInOneBlock", c, "%s", msg)
+	}
 }
 
 func firstLine(s string) string {
